@@ -140,6 +140,7 @@ def build(env=None):
     s.any = cc.AnyField()
     s.sub.c = cc.StringField()
     s.sub.deep.e = cc.SecureField(method="xor")
+    s.sub.deep.n = cc.IntField()
     item = cc.Schema()
     item.c = cc.IntField()
     item.s = cc.SecureField(method="xor")
@@ -189,7 +190,7 @@ def jobs(tier):
 
 # a successful save loads back: key files of their own one and two levels down, and a process environment in which
 # every variable the schema is bound to exists but is empty
-VARIANTS = ["key-on-sub", "key-on-deep", "key-on-sub-and-deep", "env-empty", "env-empty+key-on-deep", "format-options", "after-masked-render"]
+VARIANTS = ["key-on-sub", "key-on-deep", "key-on-sub-and-deep", "env-empty", "env-empty+key-on-deep", "format-options", "after-masked-render", "key-home-relative", "with-include"]
 OPTIONS = {"json": {"pretty": False}, "yaml": {"root_key": "CFG"}, "xml": {"root_tag": "settings"}, "bson": {}, "pickle": {}}
 
 
@@ -203,7 +204,15 @@ def _loadback(job, ctx):
         keys[name] = os.path.join(tmp, "c19-%s.key" % name)
         with open(keys[name], "wb") as fh:
             fh.write(bytes((i * 7 + len(name)) % 256 for i in range(32)))
+    if variant == "key-home-relative":
+        # the root's key file is named home-relative; the file exists (and must still hold the same key afterwards)
+        import shutil
+        shutil.copy(keys["root"], os.path.join(core.home_dir(), "c19-root.key"))
+        keys["root"] = "~/c19-root.key"
     schema = build(env="C19ENV" if "env-empty" in variant else None)
+    if variant == "with-include":
+        import cincoconfig as _cc
+        schema.include = _cc.IncludeField(startdir=tmp)
     if "env-empty" in variant:
         for name in W.env_names(schema):
             os.environ[name] = ""
@@ -236,6 +245,15 @@ def _loadback(job, ctx):
                         import base64
                         tree["b"] = base64.b64decode(tree["b"])
                     assign(cfg, tree)
+                    if variant == "with-include":
+                        # the configuration names an include file that restates one value two levels down of what is saved: the
+                        # saved document carries the include, so loading it merges that file into what the document says
+                        if cfg.sub.c is None:
+                            cfg.sub.c = "inc"
+                        cfg.sub.deep.n = 7
+                        with open(os.path.join(tmp, "c19-part.inc"), "wb") as fh:
+                            fh.write(cc.ConfigFormat.get(fmt).dumps(None, {"sub": {"c": cfg.sub.c, "deep": {"n": 7}}}))
+                        cfg.include = "c19-part.inc"
                     dest = os.path.join(tmp, "lb.cfg")
                     ctx.transitions += 1
                     case = _case(job, ident)
